@@ -33,6 +33,10 @@ Inductive sk :=
 | CkStat             (* has, err := hasFile(target); if err != nil { return err } *)
 | CkRemoveOrRename   (* if has { return os.Remove(f.Name()) }; return os.Rename(f.Name(), target) *)
 | CkEnd              (* commit returns nil (inserted by the interpreter at the call) *)
+(** a commit that copies instead of renaming (NOT the deployed code; used to
+    show what the atomic rename is relied upon for): *)
+| CkRemoveOrCopyHalf (* if has { remove temp }; else create the target and write the first half *)
+| CkCopyRest         (* write the rest of the target, remove the temp file *)
 | SkUnknown (text : string).
 
 Definition sk_eqb (a b : sk) : bool :=
@@ -41,7 +45,7 @@ Definition sk_eqb (a b : sk) : bool :=
   | SkCloseTemp, SkCloseTemp | SkCheckKey, SkCheckKey | SkCommit, SkCommit
   | SkDisarm, SkDisarm | SkReturnKey, SkReturnKey | CkLock, CkLock
   | CkDeferUnlock, CkDeferUnlock | CkStat, CkStat | CkRemoveOrRename, CkRemoveOrRename
-  | CkEnd, CkEnd => true
+  | CkEnd, CkEnd | CkRemoveOrCopyHalf, CkRemoveOrCopyHalf | CkCopyRest, CkCopyRest => true
   | SkUnknown x, SkUnknown y => String.eqb x y
   | _, _ => false
   end.
@@ -58,6 +62,9 @@ Definition fs_create_skel : list sk :=
   [SkCreateTemp; SkDeferCleanup; SkTeeHash; SkCloseTemp; SkCheckKey; SkCommit; SkDisarm; SkReturnKey].
 Definition fs_commit_skel : list sk :=
   [CkLock; CkDeferUnlock; CkStat; CkRemoveOrRename].
+(** the copying variant *)
+Definition fs_commit_copy_skel : list sk :=
+  [CkLock; CkDeferUnlock; CkStat; CkRemoveOrCopyHalf; CkCopyRest].
 
 Inductive cerr :=
 | ECreateTemp | EInput (e : N) | EWrite | EClose | EStat | ERemove | ERename.
@@ -100,6 +107,10 @@ Definition has_key (k : key) (st : fsst) : bool :=
 
 Section FS.
 Variable D : bytes -> bytes.               (* SHA-256 *)
+Variable excl : bool.                      (* true: one store object, b.mu excludes other committers;
+                                              false: Lock never waits and excludes nobody - an upper bound
+                                              for any number of store objects (each with its own mutex)
+                                              opened on the same directory *)
 Variable commit_prog : list sk.            (* body of commit *)
 Variable klen : N.                         (* isValidKey *)
 Variable kranges : list (N * N).
@@ -174,10 +185,12 @@ Definition tstep (fault : bool) (st : fsst) (tid : nat) (t : thr) : option (fsst
         end
     | SkCommit => Some (st, set_cont t (commit_prog ++ CkEnd :: rest))
     | CkLock =>
-        match lock st with
-        | None => Some (set_lock st (Some tid), set_cont t rest)
-        | Some _ => None
-        end
+        if excl then
+          match lock st with
+          | None => Some (set_lock st (Some tid), set_cont t rest)
+          | Some _ => None
+          end
+        else Some (st, set_cont t rest)
     | CkDeferUnlock =>
         Some (st, mkThr rest (tf t) (armed t) true (inp t) (acc t) (tk t) (thas t)
                         (res t) (committed t))
@@ -204,6 +217,31 @@ Definition tstep (fault : bool) (st : fsst) (tid : nat) (t : thr) : option (fsst
                         mkThr rest (tf t) (armed t) (udefer t) (inp t) (acc t) (tk t) (thas t)
                               (res t) true)
               end
+        | _, _, _ => Some (finish st t RPanic)
+        end
+    | CkRemoveOrCopyHalf =>
+        match thas t, tf t, tk t with
+        | Some true, Some n, Some _ => Some (rm_tmp n st, set_cont t rest)
+        | Some false, Some n, Some k =>
+            match lookup_nat n (tmp st) with
+            | None => Some (finish st t (RErr ERename))
+            | Some c =>
+                Some (mkFs ((k, firstn (List.length c / 2) c) :: objs st) (tmp st) (lock st),
+                      set_cont t rest)
+            end
+        | _, _, _ => Some (finish st t RPanic)
+        end
+    | CkCopyRest =>
+        match thas t, tf t, tk t with
+        | Some true, _, _ => Some (st, set_cont t rest)       (* nothing to copy *)
+        | _, Some n, Some k =>
+            match lookup_nat n (tmp st) with
+            | None => Some (finish st t (RErr ERename))
+            | Some c =>
+                Some (mkFs ((k, c) :: objs st) (remove_nat n (tmp st)) (lock st),
+                      mkThr rest (tf t) (armed t) (udefer t) (inp t) (acc t) (tk t) (thas t)
+                            (res t) true)
+            end
         | _, _, _ => Some (finish st t RPanic)
         end
     | CkEnd =>
@@ -250,6 +288,12 @@ Definition run (s : sys) (sched : list (nat * bool)) : sys := fold_left sys_step
 Definition init_sys (prog : list sk) (objs0 : list (key * bytes)) (inputs : list script) : sys :=
   mkSys (mkFs objs0 [] None) (map (new_thr prog) inputs).
 
+(** the same with files already lying in tmp/ (left by an earlier crash, or put
+    there by somebody else) *)
+Definition init_sys_tmp (prog : list sk) (objs0 : list (key * bytes)) (tmp0 : list (nat * bytes))
+           (inputs : list script) : sys :=
+  mkSys (mkFs objs0 tmp0 None) (map (new_thr prog) inputs).
+
 Definition all_done (s : sys) : Prop := forall t, In t (sthr s) -> res t <> None.
 
 (** ** Open / Has (one atomic file-system action each, under RLock) *)
@@ -281,5 +325,51 @@ Definition create_fuel (input : script) : nat := List.length input + 20.
 Definition seq_create (prog : list sk) (st : fsst) (input : script) : fsst * option cres :=
   let '(st', t') := run_thread (create_fuel input) st 0%nat (new_thr prog input) in
   (st', res t').
+
+(** ** Guarded schedules: any discipline that only makes threads wait *)
+
+Definition guard := sys -> nat * bool -> bool.
+
+Definition gstep (g : guard) (s : sys) (e : nat * bool) : sys :=
+  if g s e then sys_step s e else s.
+
+Definition grun (g : guard) (s : sys) (sched : list (nat * bool)) : sys :=
+  fold_left (gstep g) sched s.
+
+
+(** ** Threads that call Open and Has: an observer performs its file-system
+    action at some moment of the schedule and records the result *)
+
+Inductive obsv := OOpen (k : key) | OHas (k : key).
+Inductive oresv := ORes (r : ores) | OBool (b : bool).
+
+Definition observe (st : fsst) (o : obsv) : oresv :=
+  match o with
+  | OOpen k => ORes (fs_open st k)
+  | OHas k => OBool (fs_has st k)
+  end.
+
+Record msys := mkMsys { ms : sys; mo : list (obsv * option oresv) }.
+
+Inductive mentry := ECreate (e : nat * bool) | EObserve (j : nat).
+
+Definition mstep (g : guard) (og : sys -> nat -> bool) (s : msys) (e : mentry) : msys :=
+  match e with
+  | ECreate c => mkMsys (gstep g (ms s) c) (mo s)
+  | EObserve j =>
+      match nth_error (mo s) j with
+      | Some (o, None) =>
+          if og (ms s) j then mkMsys (ms s) (upd_nth j (o, Some (observe (sfs (ms s)) o)) (mo s))
+          else s
+      | _ => s
+      end
+  end.
+
+Definition mrun (g : guard) (og : sys -> nat -> bool) (s : msys) (sched : list mentry) : msys :=
+  fold_left (mstep g og) sched s.
+
+Definition minit (prog : list sk) objs0 tmp0 inputs (obs : list obsv) : msys :=
+  mkMsys (init_sys_tmp prog objs0 tmp0 inputs) (map (fun o => (o, None)) obs).
+
 
 End FS.
